@@ -41,7 +41,7 @@ PROPS = {
     'C05': dict(
         level='proof', verus=['c01_parse', 'c05_accessors', 'c05_getters', 'c05_paths', 'c05_entries'],
         trusted_base=[A_TOOLS, A_EXTRACT, 'A-LEAF-LINK: decode helper contracts = K:k_take_till_nul, k_parse_binary_entry, k_dec_u16/u32/u64 on the real functions with real nom', 'A-LOSSY: from_utf8_lossy is a total function of the bytes'],
-        assumptions=['get_scriptlet and the nine (now ten, with get_verify_script) scriptlet accessors: Ok exactly when the body is stored as a string under the script tag of THAT kind, flags and interpreter from the two other tags of that kind (absent when missing or ill-typed). get_dependencies (and through it get_provides .. get_supplements) and get_changelog_entries: entry i is built from item i of the three arrays stored under the tags of that kind, in order, up to the shortest array; an error when an array is missing or ill-typed, the empty list when all three are absent (R41: Vec::from_iter(multizip(..).map(f)) as a helper contract, the mapping closure verified). get_file_paths (unit c05_paths): path i is DIRNAMES[DIRINDEXES[i]] joined with BASENAMES[i], in order, up to the shorter of the two arrays; an index outside DIRNAMES is an error (R43: zip + try_fold as the fold of the verbatim closure, with an induction lemma over the fold; Path::join is an uninterpreted function of the two texts). get_file_entries: only the BODY of its fold closure is under contract (block e1_file_entry of unit c05_entries: entry idx is built from the idx-th items handed to it, owner and group not swapped, capability / IMA signature taken at idx, digest text kept with the algorithm, a malformed digest the only error); that the multizip / enumerate / try_fold around it hands the closure item idx of each array, and the fetching of the ten arrays, are NOT covered / try_fold / collect / Path::join bodies that Verus rejects and CBMC cannot finish): "file lists assembled as directory[dirindex]+basename" and "lists zipped in order" are not decided',
+        assumptions=['get_scriptlet and the nine (now ten, with get_verify_script) scriptlet accessors: Ok exactly when the body is stored as a string under the script tag of THAT kind, flags and interpreter from the two other tags of that kind (absent when missing or ill-typed). get_dependencies (and through it get_provides .. get_supplements) and get_changelog_entries: entry i is built from item i of the three arrays stored under the tags of that kind, in order, up to the shortest array; an error when an array is missing or ill-typed, the empty list when all three are absent (R41: Vec::from_iter(multizip(..).map(f)) as a helper contract, the mapping closure verified). get_file_paths (unit c05_paths): path i is DIRNAMES[DIRINDEXES[i]] joined with BASENAMES[i], in order, up to the shorter of the two arrays; an index outside DIRNAMES is an error (R43: zip + try_fold as the fold of the verbatim closure, with an induction lemma over the fold; Path::join is an uninterpreted function of the two texts). get_file_entries: only the BODY of its fold closure is under contract (block e1_file_entry of unit c05_entries: entry idx is built from the idx-th items handed to it, owner and group not swapped, capability / IMA signature taken at idx, digest text kept with the algorithm, a malformed digest the only error); that the multizip / enumerate / try_fold around it hands the closure item idx of each array, are NOT covered; of the fetching of its ten arrays only the size arrays are (block e2_sizes of unit c05_paths: the 64-bit per-file sizes when the package has them, else the 32-bit ones widened, independently of the package-level size tags) / try_fold / collect / Path::join bodies that Verus rejects and CBMC cannot finish): "file lists assembled as directory[dirindex]+basename" and "lists zipped in order" are not decided',
                      'typed getters: the look-up find_entry_or_err (Iterator::find with a closure) is a bounded Kani proof (3-entry headers, symbolic tags in any order) and an assumed contract in Verus; everything after it - the IndexData::as_* projections and the six getters the accessors use - is proved for headers of any size in unit c05_getters (error payload strings dropped, R12)'],
         explanation='parse_header (verbatim, incl. the real decode loop): for EVERY entry of every accepted header the stored data equals an independent decoding of the store bytes written as spec functions (strings up to the first NUL, integer arrays big-endian at full length, string / i18n arrays item by item with terminators skipped, binary verbatim) - postcondition decoded(entry, store), unbounded; typed getters return the data of the first entry with the tag iff its type matches, else the documented error (unit c05_getters on the verbatim getters and as_* projections, for any number of entries, over the find_entry_or_err contract that K:k_getters_* establish for 3 entries); the 18 scalar accessors of PackageMetadata (name, version, release, epoch, arch, vendor, url, vcs, license, packager, build host/time, cookie, source rpm, summary, description, group, installed size) return what the getter gives for the rpm tag number they are named after; get_installed_size prefers LONGSIZE then SIZE.',
     ),
